@@ -84,6 +84,8 @@ pub struct ContainerSpec {
 const BINOPS: [u8; 20] = [0x01, 0x02, 0x03, 0x04, 0x05, 0x06, 0x07, 0x0a, 0x0b, 0x10, 0x11, 0x12, 0x13, 0x14, 0x16, 0x17, 0x18, 0x1a, 0x1b, 0x1c];
 const UNOPS: [u8; 6] = [0x15, 0x19, 0x35, 0x31, 0x40, 0x5c];
 /// EXT*CALL targets (pool indices): the second generated EOF contract (3x), a legacy contract, the caller itself, an EOA, an empty account, a precompile
+pub const MODE_CONSERVATION: u8 = 1;
+pub const MODE_INSPECTORS: u8 = 2;
 const EXT_TARGETS: [u8; 8] = [5, 5, 5, 6, 4, 0, 10, 17];
 const ENVOPS: [u8; 18] = [0x30, 0x32, 0x33, 0x34, 0x36, 0x3a, 0x3d, 0x41, 0x42, 0x43, 0x44, 0x45, 0x46, 0x47, 0x48, 0x4a, 0x59, 0xd2];
 
@@ -777,7 +779,7 @@ fn verdict(bytes: &[u8], kind: Option<CodeType>) -> Result<bool, Vec<Failure>> {
 }
 
 /// Worlds in which an accepted container runs: as the code of a called account, and (initcode kind) as a create transaction.
-fn execute(bytes: &[u8], runtime_ok: bool, initcode_ok: bool, calldata: &[u8], o: &mut Outcome) -> Result<(), Vec<Failure>> {
+fn execute(bytes: &[u8], runtime_ok: bool, initcode_ok: bool, calldata: &[u8], o: &mut Outcome, mode: u8) -> Result<(), Vec<Failure>> {
     let spec = SpecId::OSAKA;
     let sender = pool::eoa(0);
     let mut world = r::World::new();
@@ -814,6 +816,31 @@ fn execute(bytes: &[u8], runtime_ok: bool, initcode_ok: bool, calldata: &[u8], o
         match res {
             Ok(rs) => {
                 ensure!(rs.result.gas_used() <= tx.gas_limit, format!("C26|{label}|gas"), "gas_used {} > limit", rs.result.gas_used());
+                if mode & MODE_CONSERVATION != 0 {
+                    // C08 on EOF value flows (EXTCALL with value, EOFCREATE endowments): nothing but the base fee leaves
+                    let mut post = world.clone();
+                    apply_state(&mut post, &rs.state, true);
+                    let burned = crate::common::big(ru(block.base_fee)) * rs.result.gas_used();
+                    let (pre_s, post_s) = (total_supply(world), total_supply(&post));
+                    if &post_s + &burned != pre_s {
+                        return Err(vec![Failure::new(format!("C26|{label}|C08|ether-{}", if &post_s + &burned > pre_s { "created" } else { "destroyed" }), format!("sum(pre) {pre_s} != sum(post) {post_s} + basefee*gas_used {burned} [{:?}]", rs.result))]);
+                    }
+                }
+                if mode & MODE_INSPECTORS != 0 {
+                    // C28: the recording inspector, the gas inspector and no inspector at all see the same execution
+                    let plain = run_plain(spec, world, &block, tx).map_err(|e| vec![Failure::new(format!("C26|{label}|C28|plain-rejected"), e)])?;
+                    let gas = {
+                        let mut evm = revm::Evm::builder().with_db(ModelDB::new(world.clone())).with_spec_id(spec).with_env(Box::new(make_env(spec, &block, tx))).with_external_context(revm::inspectors::GasInspector::default()).append_handler_register(revm::inspector_handle_register).build();
+                        evm.transact().map_err(|e| vec![Failure::new(format!("C26|{label}|C28|gas-inspector-rejected"), format!("{e:?}"))])?
+                    };
+                    let proj = |x: &revm::primitives::ResultAndState| {
+                        let mut v: Vec<String> = x.state.iter().map(|(a, acc)| { let mut st: Vec<_> = acc.storage.iter().map(|(k, s)| (*k, s.present_value)).collect(); st.sort(); format!("{a} {:?} {:?} {:?}", acc.info.balance, acc.info.nonce, st) }).collect();
+                        v.sort();
+                        v
+                    };
+                    ensure!(plain.result == rs.result && proj(&plain) == proj(&rs), format!("C26|{label}|C28|recording-inspector-changes-execution"), "without inspector {:?}, with the recording inspector {:?}", plain.result, rs.result);
+                    ensure!(plain.result == gas.result && proj(&plain) == proj(&gas), format!("C26|{label}|C28|GasInspector-changes-execution"), "without inspector {:?}, with GasInspector {:?}", plain.result, gas.result);
+                }
                 if rec.steps >= 5 {
                     o.labels.push("executed>=5-instructions");
                 }
@@ -948,6 +975,10 @@ fn must_reject(eof: &Eof) -> Option<String> {
 
 /// All laws on one byte string.
 fn full_check(bytes: &[u8], calldata: &[u8], o: &mut Outcome) -> Result<(), Vec<Failure>> {
+    full_check_mode(bytes, calldata, o, 0)
+}
+
+fn full_check_mode(bytes: &[u8], calldata: &[u8], o: &mut Outcome, mode: u8) -> Result<(), Vec<Failure>> {
     let Some(eof) = decode_laws(bytes)? else {
         o.labels.push("not-decodable");
         // validation must agree that it does not decode
@@ -980,7 +1011,7 @@ fn full_check(bytes: &[u8], calldata: &[u8], o: &mut Outcome) -> Result<(), Vec<
     if eof.body.code_section.len() >= 2 {
         o.labels.push("multi-section");
     }
-    execute(bytes, rt, ic, calldata, o)
+    execute(bytes, rt, ic, calldata, o, mode)
 }
 
 // ------------------------------------------------------------------------------------------
@@ -1013,6 +1044,33 @@ pub fn built_case(c: &BuiltCase) -> CaseResult {
     let mut o = Outcome::trivial();
     full_check(&bytes, &c.calldata, &mut o)?;
     Ok(o)
+}
+
+
+/// C08 / C28 on EOF: the same execution, judged by conservation (mode 1) or by inspector transparency (mode 2).
+pub fn eof_mode_case(c: &BuiltCase, mode: u8, tag: &str, id: &str) -> CaseResult {
+    let bytes = assemble_container(&c.spec, 0);
+    let mut o = Outcome::trivial();
+    match full_check_mode(&bytes, &c.calldata, &mut o, mode) {
+        Ok(()) => {}
+        Err(fails) => {
+            let needle = format!("|{tag}|");
+            let mine: Vec<Failure> = fails.into_iter().filter(|f| f.sig.contains(&needle)).map(|f| Failure::new(format!("{id}|eof|{}", f.sig.rsplit(&needle).next().unwrap_or("")), f.msg)).collect();
+            if !mine.is_empty() {
+                return Err(mine);
+            }
+        }
+    }
+    o.nontrivial = o.labels.iter().any(|l| matches!(*l, "ran:EOFCREATE" | "ran:EXTCALL" | "ran:EXTDELEGATECALL" | "ran:EXTSTATICCALL"));
+    Ok(o)
+}
+
+pub fn c08_eof_case(c: &BuiltCase) -> CaseResult {
+    eof_mode_case(c, MODE_CONSERVATION, "C08", "C08")
+}
+
+pub fn c28_eof_case(c: &BuiltCase) -> CaseResult {
+    eof_mode_case(c, MODE_INSPECTORS, "C28", "C28")
 }
 
 /// C29 on EOF frames: the same execution, judged by the hook-pairing recorder only.
